@@ -32,7 +32,11 @@ def run(c, replay):
                         program=pr["text"], config=C.describe(run_), differing=diff,
                         how="write program to a file; harness drv_sim <file> parallel <threads> <ckpt> <gvt> 0 - -; model_driver seq <file> 0 2000000 0 1"), True)
         nontriv.add((pr["idx"], run_["cfg"]))
+    # ---- op-by-op tie of process.c / fossil.c / the message queue to the executable worker model (stragglers, anti-messages, rollbacks,
+    # fossil collections driven by scripts; the model's state digests must equal the implementation's after every script line)
+    wcov = C.worker_report(c, C.lp_campaign(c, ctx, r, 8 if c.tier == "quick" else 150, 0))
     C.finish(c, ctx)
+    c.cov.update(wcov)
     c.cov.update(evaluations=len(runs), distinct_nontrivial=len(nontriv), runs_returned=ok, runs_not_returned_inconclusive=hung,
                  programs=len(progs),
                  rule="generated interpreter programs x (threads 1..16 incl. more threads than LPs, checkpoint interval 1..7/auto, GVT period 100..1000us); "
